@@ -143,7 +143,7 @@ pub fn check_core(c: &DocCase) -> V {
             "backtick_leading_prose",
         )
         .label_if(c.doc.blocks.iter().any(|b| matches!(b, Blk::Foreign { .. })), "foreign_block")
-        .label_if(c.doc.blocks.iter().any(|b| matches!(b, Blk::EmptyScrut { .. } | Blk::CommentOnlyScrut { .. })), "scrut_block_without_command")
+        .label_if(c.doc.blocks.iter().any(|b| matches!(b, Blk::EmptyScrut { .. } | Blk::CommentOnlyScrut { .. } | Blk::ExitOnlyScrut { .. })), "scrut_block_without_command")
         .label_if(c.doc.blocks.iter().any(|b| matches!(b, Blk::ScrutCfgTrailingBlank(_) | Blk::ScrutLangTrailingBlank(_))), "trailing_blank_on_fence_line");
     let (cfg, tests) = match md_parse(&r.text) {
         Err(p) => return classify(&c.doc, format!("parser crashed: {p}\ndocument:\n{}", r.text)),
